@@ -8,6 +8,7 @@ One scenario per input (see TTV/Model/Content.lean `Input` / TTV/Drv/C16.lean fo
   (stream isFile data0 data1? pos0 size seek? buffer_now iters caps)   content_from_stream/file on an instrumented stream;
                                                      caps = short-read plan: the k-th read of an evaluation returns at most caps[k] bytes
   (ctype type subtype ((name value)...))             ContentType.__repr__ -> _make_content_type
+  (ctypeSeq ((type subtype params) ...))             the same for several types in one process (a type, a letter-case variant, the type again)
   (copy init ops)                                    _copy_content over a volatile source
 """
 import codecs, io, itertools, json, os, tempfile
@@ -84,7 +85,11 @@ class C16(Prop):
             '(a dependence is reported as a trace outside the model\'s vocabulary); stream: BytesIO and real files, 45 % behind a short-read plan (raw-stream '
             'behaviour: a read returns fewer bytes than asked for before EOF), chunk sizes 1..9 and around the length, offsets -n-2..n+2, '
             'whence 0/1/2, buffer_now, data replaced between construction and iteration, 1-3 consumptions; ctype: token names, values over an '
-            'adversarial alphabet (quotes, backslashes, separators, NUL, non-ASCII, encoded-word markers, line breaks). thorough adds every '
+            'adversarial alphabet (quotes, backslashes, separators, NUL, non-ASCII, encoded-word markers, line breaks); ctypeSeq: a content type, a variant of it '
+            'that differs in letter case only (in parameter values - significant - and/or in type / subtype / parameter names - insignificant), and the type '
+            'again, parsed one after the other in a freshly executed private copy of testtools.testresult.real (process state as at start-up, so cases, '
+            'replays and shrinking do not depend on earlier cases), every ContentType handed out being scribbled on afterwards; charset names of the '
+            'modelled codecs also in alias spellings (UTF-8, utf_8, Latin-1, us-ascii ...). thorough adds every '
             'cutting of five byte strings of <= 9 bytes and every stream configuration with <= 6 bytes. non-trivial = decode with a cut inside a '
             'multi-byte sequence or an error; stream with >= 2 chunks or a seek; ctype with a parameter whose value needs quoting; copy with a set '
             'after a copy; text with a non-ASCII character; eq with different chunkings; distinct = distinct input S-expression')
@@ -108,7 +113,9 @@ class C16(Prop):
                 'RFC 3629 reference decoder that accepts exactly the encodings of scalar-value texts; the encoder proved equal to core Lean\'s '
                 'String.utf8EncodeChar); text_content round-trips under every chunking; _iter_chunks yields non-empty chunks <= chunk_size that concatenate '
                 'to the bytes from the clamped seek position to EOF, lazily unless buffer_now; Content equality = type and bytes; ContentType render/parse '
-                'round trip for lower-case token names and arbitrary values outside three recorded finding classes; _copy_content copies are snapshots '
+                'round trip for lower-case token names and arbitrary values outside three recorded finding classes, names in any letter case coming back lower-cased '
+                'and every answer independent of what was parsed before (no state in the model; sequences with case variants and scribbled-on results in the check); '
+                '_copy_content copies are snapshots '
                 'evaluated once. The hand-written model is tied to the code (a) by theorems C16_src_* proving that iterText, the buffer_now step, the chunk '
                 'loop, render/quoteValue and fixCharset ARE the interpretation of statement skeletons re-read from content.py, content_type.py and real.py on '
                 'every run, (b) by a differential check on instrumented streams/files (incl. short-reading raw streams), real codecs, re-used Content objects '
@@ -168,7 +175,7 @@ class C16(Prop):
     def impl_decode(self, is_text, cs, chunks, whole_in, name):
         from testtools.content import Content
         from testtools.content_type import ContentType
-        enc = CODECS[cs] if cs != 'opaque' else name
+        enc = CODECS[cs] if cs != 'opaque' and name in ('x', 'none') else name      # (an alias spelling of a modelled codec travels in `name`)
         chunks = [bytes(c) for c in chunks]
         params = {} if enc is None else {'charset': enc}
         ct = ContentType('text' if is_text else 'application', 'plain', params)
@@ -292,6 +299,41 @@ class C16(Prop):
             parsed = ['raised', 'ValueError']
         return ['ctype', cps(rendered), parsed]
 
+    _real_code = None
+
+    def fresh_real(self):
+        """a private, freshly executed copy of testtools.testresult.real: module-level state (caches, registries) is as at the start of a
+        process, so that a case - and its replay, and the shrinker's candidates - does not depend on the cases that ran before it"""
+        import types
+        import testtools.testresult.real as real
+        if C16._real_code is None:
+            C16._real_code = compile(open(real.__file__).read(), real.__file__, 'exec')
+        m = types.ModuleType(real.__name__)
+        m.__file__, m.__package__ = real.__file__, real.__package__
+        exec(C16._real_code, m.__dict__)
+        return m
+
+    def impl_ctypeSeq(self, cts):
+        """several content types parsed one after the other in this process; every ContentType handed out is scribbled on afterwards
+        (it belongs to the caller: a later parse must not show the scribbles, nor be answered with an earlier answer)"""
+        from testtools.content_type import ContentType
+        _make_content_type = self.fresh_real()._make_content_type
+        out = []
+        for t, s, params in cts:
+            ct = ContentType(txt(t), txt(s), {txt(k): txt(v) for k, v in params})
+            rendered = repr(ct)
+            try:
+                r = _make_content_type(rendered)
+                parsed = ['ok', cps(r.type), cps(r.subtype), [[cps(k), cps(v)] for k, v in sorted(r.parameters.items())]]
+                for k in list(r.parameters):
+                    r.parameters[k] = r.parameters[k] + '<scribble>'
+                r.parameters['verif-scribble'] = 'x'
+                r.type, r.subtype = 'scribbled', 'scribbled'
+            except ValueError:
+                parsed = ['raised', 'ValueError']
+            out.append([cps(rendered), parsed])
+        return ['ctypeSeq', out]
+
     def impl_copy(self, init, ops):
         from testtools.content import Content
         from testtools.testcase import _copy_content
@@ -354,6 +396,9 @@ class C16(Prop):
                 [0xF0, 0x80, 0x80, 0x80], [0xF0, 0x8F, 0xBF, 0xBF], [0xF4, 0x90, 0x80, 0x80], [0xF5, 0x80, 0x80, 0x80], [0xFF], [0x80],
                 [0xBF], [0xC2], [0xE2, 0x82], [0xF0, 0x9F, 0x98], [0xE2, 0x28, 0xA1], [0xF0, 0x9F, 0x41, 0x80], [0xC2, 0x41]]
 
+    ALIASES = {'utf8': ['UTF8', 'utf-8', 'UTF-8', 'utf_8', 'U8'], 'latin1': ['latin-1', 'Latin1', 'iso8859-1', 'ISO_8859-1', 'L1'],
+               'ascii': ['ASCII', 'us-ascii', 'US_ASCII', '646']}
+
     def gen_decode(self, rng):
         cs = rng.choice(['utf8'] * 6 + ['absent', 'latin1', 'ascii'] + ['opaque'] * 2)
         name = 'x'
@@ -378,6 +423,8 @@ class C16(Prop):
             b = [rng.randrange(128 if rng.random() < 0.8 else 256) for _ in range(rng.randint(0, 8))]
         else:
             b = self.g_bytes(rng)
+        if cs in self.ALIASES and rng.random() < 0.4:
+            name = rng.choice(self.ALIASES[cs])       # the codec registry is case- and punctuation-insensitive: same decoder
         enc = CODECS[cs] if cs != 'opaque' else name
         whole = None
         if cs == 'opaque':
@@ -440,11 +487,41 @@ class C16(Prop):
             elif r < 0.14:
                 v = rng.choice(['=?utf-8?q?abc?=', 'x =?utf-8?b?YWJj?= y', '=?', 'a=?b', '=?utf-8?q?a', '?=', '=?iso-8859-1?q?=E9?='])
             elif r < 0.3:
-                v = rng.choice(['utf8', 'utf-8', 'a,b', ',', 'x,', 'UTF8', 'iso-8859-1'])
+                v = rng.choice(['utf8', 'utf-8', 'a,b', ',', 'x,', 'UTF8', 'iso-8859-1', '', ' '])
             else:
                 v = ''.join(rng.choice(self.VALUE_ALPHA) for _ in range(rng.choice([0, 1, 1, 2, 3, 4, 6])))
             params[name] = v
         return ['ctype', cps(self.g_token(rng)), cps(self.g_token(rng)), [[cps(k), cps(v)] for k, v in params.items()]]
+
+    SEQ_VALUES = ['server.log', 'Server.LOG', 'a b', 'UTF8', 'utf8', 'x', 'Z', 'Ab"c', 'q\\Q', 'é', 'É', '', '0', 'mixedCase;=x']
+
+    def case_variant(self, rng, ct):
+        """a content type that differs from `ct` in letter case only: in parameter VALUES (significant) and/or in type / subtype /
+        parameter names (insignificant)"""
+        f = rng.choice([str.upper, str.lower, str.swapcase, str.title])
+        g = rng.choice([str.upper, str.title, str.swapcase, lambda x: x])
+        where = rng.choice(['values', 'values', 'names', 'both'])
+        t, s, params = ct
+        vals = lambda v: f(v) if where in ('values', 'both') else v
+        names = lambda n: g(n) if where in ('names', 'both') else n
+        return [cps(names(txt(t))), cps(names(txt(s))), [[cps(names(txt(k))), cps(vals(txt(v)))] for k, v in params]]
+
+    def gen_ctypeSeq(self, rng):
+        """a content type (lower-case names, outside the finding classes), a case variant of it, and the type again"""
+        names = []
+        while len(names) < rng.choice([1, 1, 2, 3]):
+            n = rng.choice([self.g_token(rng), 'name', 'charset', 'k'])
+            if n not in names:
+                names.append(n)
+        ct = [cps(self.g_token(rng)), cps(self.g_token(rng)),
+              [[cps(n), cps(rng.choice(self.SEQ_VALUES) if rng.random() < 0.8 else ''.join(rng.choice('abZ09 ;=/.é') for _ in range(rng.randint(1, 5))))] for n in names]]
+        seq = [ct, self.case_variant(rng, ct), ct]
+        r = rng.random()
+        if r < 0.25:
+            seq = [self.case_variant(rng, ct)] + seq
+        elif r < 0.4:
+            seq.append(self.case_variant(rng, ct))
+        return ['ctypeSeq', seq]
 
     def g_chunks(self, rng):
         return self.cut(rng, [rng.randrange(256) for _ in range(rng.randint(0, 6))])
@@ -485,7 +562,7 @@ class C16(Prop):
         return ['eq', cta, cta if rng.random() < 0.7 else rng.randrange(3), self.cut(rng, a), self.cut(rng, b)]
 
     def gen(self, rng, tier):
-        k = rng.choices(['decode', 'stream', 'ctype', 'copy', 'text', 'json', 'eq'], [30, 25, 20, 8, 7, 4, 6])[0]
+        k = rng.choices(['decode', 'stream', 'ctype', 'ctypeSeq', 'copy', 'text', 'json', 'eq'], [30, 24, 15, 8, 7, 6, 4, 6])[0]
         if k == 'text':
             return ['text', cps(self.g_text(rng, 14))]
         return getattr(self, 'gen_' + k)(rng)
@@ -543,6 +620,8 @@ class C16(Prop):
             return inp[6] is not None or sum(1 for e in trace[1] if isinstance(e, list) and e[0] == 'chunk') >= 2
         if k == 'ctype':
             return any(any(c in (34, 92, 59, 44, 32, 61) or c > 126 for c in v) for _, v in inp[3])
+        if k == 'ctypeSeq':
+            return len({str(c) for c in inp[1]}) >= 2
         if k == 'copy':
             seen = False
             for op in inp[2]:
@@ -565,6 +644,8 @@ class C16(Prop):
             return f
         if k == 'decode':
             f.append('decode:cs=' + (inp[2] if inp[2] != 'opaque' else 'opaque:' + inp[5]))
+            if inp[2] != 'opaque' and inp[5] not in ('x', 'none'):
+                f.append('decode:charset-alias-spelling')
             n = len(inp[3])
             f.append('decode:chunks=' + (str(n) if n < 4 else '4+'))
             f.append('decode:' + ('error' if trace[1] is None else 'ok'))
@@ -613,6 +694,17 @@ class C16(Prop):
             if any(ord(c) > 126 or ord(c) < 32 for v in vals for c in v):
                 f.append('ctype:non-printable-or-non-ascii')
             f.append('ctype:parsed=' + (trace[2][0] if isinstance(trace[2], list) else str(trace[2])))
+        elif k == 'ctypeSeq':
+            f.append('ctypeSeq:len=%d' % len(inp[1]))
+            a = inp[1]
+            for x, y in zip(a, a[1:]):
+                if x != y:
+                    if [v for _, v in x[2]] != [v for _, v in y[2]]:
+                        f.append('ctypeSeq:value-case-variant')
+                    if x[0] != y[0] or x[1] != y[1] or [k2 for k2, _ in x[2]] != [k2 for k2, _ in y[2]]:
+                        f.append('ctypeSeq:name-case-variant')
+            if any(a[i] == a[j] for i in range(len(a)) for j in range(i + 1, len(a))):
+                f.append('ctypeSeq:same-type-again')
         elif k == 'copy':
             f.append('copy:ops=%d' % len(inp[2]))
         return f
@@ -651,6 +743,13 @@ class C16(Prop):
                 v = ps[i][1]
                 for j in range(len(v)):
                     yield inp[:3] + [ps[:i] + [[ps[i][0], v[:j] + v[j + 1:]]] + ps[i + 1:]]
+        elif k == 'ctypeSeq':
+            a = inp[1]
+            for i in range(len(a)):
+                if len(a) > 1:
+                    yield [k, a[:i] + a[i + 1:]]
+                for j in range(len(a[i][2])):
+                    yield [k, [[c[0], c[1], c[2][:j] + c[2][j + 1:]] if len(c[2]) > j else c for c in a]]
         elif k == 'copy':
             ops = inp[2]
             for i in range(len(ops)):
